@@ -27,6 +27,9 @@ use std::sync::OnceLock;
 #[derive(Serialize, Deserialize, Clone, Debug, PartialEq)]
 pub enum Op {
     KFold,
+    /// only the first `folds` pairs of an unshuffled KFold are drawn from the iterator and checked one by one
+    /// (for fold counts whose full output would not fit in memory)
+    KFoldHead { folds: usize },
     Split { test_size: f32, f32m: bool },
     CrossValPredict,
     CrossValidate,
@@ -584,6 +587,52 @@ impl C16 {
                     }
                 }
             }
+            Op::KFoldHead { folds } => {
+                let cv = make_kfold(k, false, case.ctor);
+                let res = guarded(|| -> Result<u64, (&'static str, String)> {
+                    if cv.n_splits() != k {
+                        return Err(("n-splits", format!("n_splits() = {} for k = {}", cv.n_splits(), k)));
+                    }
+                    let (lo, hi) = (n / k, (n + k - 1) / k);
+                    let mut next_start = 0usize;
+                    let mut seen = 0u64;
+                    let mut dd = Digest::new();
+                    for (j, (tr, te)) in cv.split(&x).take(*folds).enumerate() {
+                        seen += 1;
+                        if te.len() < lo || te.len() > hi || te.is_empty() {
+                            return Err(("test-size", format!("fold {}: test set has {} indices, expected {}..{}", j, te.len(), lo, hi)));
+                        }
+                        if te.iter().enumerate().any(|(a, i)| *i != next_start + a) {
+                            return Err(("not-consecutive", format!("fold {}: test set {:?} is not the block starting at {}", j, clip(&te), next_start)));
+                        }
+                        let (b0, b1) = (next_start, next_start + te.len());
+                        next_start = b1;
+                        if tr.len() != n - te.len() {
+                            return Err(("train-not-complement", format!("fold {}: train set has {} indices, the complement of the test set has {}", j, tr.len(), n - te.len())));
+                        }
+                        let mut mask = vec![false; n];
+                        for &i in &tr {
+                            if i >= n || (i >= b0 && i < b1) || mask[i] {
+                                return Err(("train-not-complement", format!("fold {}: train index {} is out of range, held out, or repeated", j, i)));
+                            }
+                            mask[i] = true;
+                        }
+                        dd.usize(te[0]).usize(te.len()).usize(tr.len());
+                    }
+                    if seen != (*folds).min(k) as u64 {
+                        return Err(("fold-count", format!("iterator ended after {} folds", seen)));
+                    }
+                    Ok(dd.get())
+                });
+                match res {
+                    Err(msg) => rep.fail("panic", "kfold-split", format!("KFold(n={}, k={}).split() panicked: {}", n, k, msg)),
+                    Ok(Err((c, m))) => rep.fail(c, "kfold", format!("KFold(n={}, k={}, shuffle=false), first {} folds: {}", n, k, folds, m)),
+                    Ok(Ok(dg)) => {
+                        d.u64(dg);
+                        rep.count("steps.folds", (*folds).min(k) as u64);
+                    }
+                }
+            }
             Op::Split { test_size, f32m } => {
                 let ts = *test_size;
                 let n_test = ((n as f32) * ts) as usize;
@@ -908,6 +957,10 @@ impl Property for C16 {
                     note: "train_test_split with test_size = fl(k/n) and its two f32 neighbours for every 1<=k<=n<=64 (both sides of every boundary of floor(n*test_size)), f32 and f64 matrices, shuffled and not" },
             Batch { name: "split-large", count: if q { 300 } else { 6_000 }, simulated: true, exhaustive: false,
                     note: "train_test_split on 1000..20000 rows (the property bounds n only for k-fold), shuffled and unshuffled" },
+            Batch { name: "split-huge", count: if q { 4 } else { 24 }, simulated: false, exhaustive: false,
+                    note: "train_test_split on 2^24+1 .. 2^25+64 rows (beyond the integers single precision represents exactly), unshuffled, one f64 column" },
+            Batch { name: "kfold-many-folds", count: if q { 1 } else { 6 }, simulated: false, exhaustive: false,
+                    note: "unshuffled KFold with 65536..70001 folds (leave-one-out and near it); the first 300 pairs are drawn from the iterator and checked one by one" },
             Batch { name: "forced-perm-exhaustive", count: forced_small().cases.len() as u64, simulated: true, exhaustive: true,
                     note: "every permutation of n<=6 rows forced through the RNG seam x every k x every operation" },
             Batch { name: "prng-shuffle", count: if q { 200_000 } else { 6_000_000 }, simulated: true, exhaustive: false,
@@ -961,6 +1014,17 @@ impl Property for C16 {
                     n2 += 1; // precondition of the property: floor(n * test_size) >= 1
                 }
                 Case { op: Op::Split { test_size: ts, f32m: index % 2 == 1 }, n: n2, k: 2, p: 1 + (index % 3) as usize, shuffle: index % 4 < 2, fail_at: None, tape: TapeSpec::prng(tape_seed), kind: "prng".into(), f32m: false, custom_folds: None, ctor: 0 }
+            }
+            "split-huge" => {
+                let n = if index % 3 == 2 { (1usize << 25) + r.usize_in(1, 64) } else { (1usize << 24) + r.usize_in(1, 64) };
+                let ts = *r.pick(&[0.75f32, 0.3, 0.1, 0.9, 0.5, 0.33333334]);
+                Case { op: Op::Split { test_size: ts, f32m: false }, n, k: 2, p: 1, shuffle: false, fail_at: None, tape: TapeSpec::prng(tape_seed), kind: "noshuffle".into(), f32m: false, custom_folds: None, ctor: 0 }
+            }
+            "kfold-many-folds" => {
+                let k = *r.pick(&[65_537usize, 65_536, 65_538, 70_001]);
+                let k = if index == 0 { 65_537 } else { k };
+                let n = k + *r.pick(&[0usize, 0, 1, 5]);
+                Case { op: Op::KFoldHead { folds: 300 }, n, k, p: 1, shuffle: false, fail_at: None, tape: TapeSpec::prng(tape_seed), kind: "noshuffle".into(), f32m: false, custom_folds: None, ctor: (index % 3) as u8 }
             }
             "split-large" => {
                 // train_test_split has no upper bound on n in the property: a few thousand rows, shuffled and not
